@@ -4,6 +4,7 @@ import (
 	"bytes"
 	"context"
 	"fmt"
+	"io"
 	"math/rand/v2"
 	"runtime"
 	"sync"
@@ -13,6 +14,7 @@ import (
 
 	"verifharness/gen"
 	"verifharness/mon"
+	"verifharness/refts"
 )
 
 func init() {
@@ -39,6 +41,10 @@ func init() {
 			need(m, &out, "concurrent_runs", 20)
 			need(m, &out, "goroutine_switch_points", 1000)
 			need(m, &out, "concurrent_instances_compared", 200)
+			need(m, &out, "concurrent_auto_detecting_instances", 50)
+			need(m, &out, "reentrant_overlaps", 100)
+			need(m, &out, "history_independence_checks", 300)
+			need(m, &out, "muxers_in_lockstep", 100)
 			return out
 		},
 	})
@@ -103,6 +109,187 @@ func runC16(c *mon.Ctx) {
 		}
 		muxAliasCase(c, i, c.Rng("mux-alias", i))
 	}
+	no := c.Pick(300, 8000)
+	for i := int64(0); i < no; i++ {
+		if !c.Mine("overlap", i) {
+			continue
+		}
+		overlapCase(c, i, c.Rng("overlap", i))
+	}
+	nl := c.Pick(250, 6000)
+	for i := int64(0); i < nl; i++ {
+		if !c.Mine("mux-lockstep", i) {
+			continue
+		}
+		muxLockstepCase(c, i, c.Rng("mux-lockstep", i))
+	}
+}
+
+// digests runs a Demuxer to the end and returns one digest per result (or error).
+func digests(dmx *astits.Demuxer, api string, limit int) []string {
+	var out []string
+	for k := 0; k < limit; k++ {
+		var v any
+		var err error
+		if api == "data" {
+			v, err = dmx.NextData()
+		} else {
+			v, err = dmx.NextPacket()
+		}
+		if err == astits.ErrNoMorePackets {
+			break
+		}
+		if err != nil {
+			out = append(out, "err:"+err.Error())
+			continue
+		}
+		out = append(out, deepString(v))
+	}
+	return out
+}
+
+// overlapCase: (a) deterministic overlap of two instances in one goroutine: the reader of Demuxer A runs Demuxer B to the end from
+// inside its k-th Read (the situation two goroutines produce when A's reader blocks), A must return what it returns alone;
+// (b) history independence: the same input demultiplexed by a new Demuxer before and after other instances have worked returns the
+// same results (short inputs included: they exercise the packet-size detection window).
+func overlapCase(c *mon.Ctx, idx int64, r *rand.Rand) {
+	mk := func() []byte {
+		for {
+			m := gen.RandomModel(r, gen.ModelOpts{MaxPES: 2, MaxPMT: 1, MaxSI: 2, MaxUnits: 3, MaxPESLen: 600})
+			b := m.Build(r).Bytes
+			if len(b) >= 376 && b[184] != 0x47 && b[185] != 0x47 && b[186] != 0x47 && b[187] != 0x47 {
+				return b
+			}
+		}
+	}
+	a, b := mk(), mk()
+	if idx%3 == 0 {
+		// the other instance reads 188+4 framing: another packet size in the shared code paths
+		b = refts.Reframe(b, 4, func(p, j int) byte { return byte(0x11*j + p) })
+	}
+	api := []string{"data", "packet"}[idx%2]
+	limit := len(a) + len(b) + 64
+	solo := func(in []byte, seek bool, chunk int) []string {
+		yr := &yieldReader{data: in, chunk: chunk}
+		if seek {
+			return digests(astits.NewDemuxer(context.Background(), yr), api, limit)
+		}
+		return digests(astits.NewDemuxer(context.Background(), plainYield{yr}), api, limit)
+	}
+	seek := idx%4 < 2
+	chunk := 1 + r.IntN(120)
+	wantA := solo(a, seek, chunk)
+	wantB := solo(b, true, 1<<20)
+	// (a)
+	at := r.IntN(6) // which Read of A triggers B: the first ones belong to the detection window
+	reads := 0
+	var gotB []string
+	yr := &yieldReader{data: a, chunk: chunk}
+	yr.mark = func() {
+		if reads == at {
+			gotB = digests(astits.NewDemuxer(context.Background(), &yieldReader{data: b, chunk: 1 << 20}), api, limit)
+		}
+		reads++
+	}
+	var gotA []string
+	if pn, v, st := mon.Guarded(func() {
+		if seek {
+			gotA = digests(astits.NewDemuxer(context.Background(), yr), api, limit)
+		} else {
+			gotA = digests(astits.NewDemuxer(context.Background(), plainYield{yr}), api, limit)
+		}
+	}); pn {
+		c.Violate("C16/overlap/panic", "overlap", idx, fmt.Sprintf("%v\n%s", v, st), nil)
+		return
+	}
+	c.Count("reentrant_overlaps")
+	data := map[string]any{"api": api, "seekable": seek, "chunk": chunk, "other_instance_runs_inside_read": at, "stream_a": mon.Hex(a, 800), "stream_b": mon.Hex(b, 800)}
+	if d := firstDifference(gotA, wantA); d != "" {
+		c.Violate("C16/overlap/instance-disturbed-by-another:"+api, "overlap", idx, "Demuxer A (another Demuxer ran inside one of its reads) vs alone: "+d, data)
+	}
+	if d := firstDifference(gotB, wantB); d != "" {
+		c.Violate("C16/overlap/instance-disturbed-by-another:"+api, "overlap", idx, "Demuxer B (run from inside a read of A) vs alone: "+d, data)
+	}
+	// (b)
+	probes := [][]byte{a[:188], a[:100], a[:192], a[:376], b[:188], a}
+	var before [][]string
+	for _, p := range probes {
+		before = append(before, solo(p, true, 1<<20))
+	}
+	solo(b, true, 50)
+	solo(a, false, 7)
+	out := &bytes.Buffer{}
+	m := astits.NewMuxer(context.Background(), out)
+	m.AddElementaryStream(astits.PMTElementaryStream{ElementaryPID: 0x100, StreamType: astits.StreamTypeH264Video})
+	m.SetPCRPID(0x100)
+	m.WriteData(&astits.MuxerData{PID: 0x100, PES: &astits.PESData{Header: &astits.PESHeader{OptionalHeader: &astits.PESOptionalHeader{MarkerBits: 2}}, Data: gen.Bytes(r, 300)}})
+	for k, p := range probes {
+		c.Count("history_independence_checks")
+		if d := firstDifference(solo(p, true, 1<<20), before[k]); d != "" {
+			c.Violate("C16/history/result-depends-on-earlier-instances:"+api, "overlap", idx, fmt.Sprintf("input of %d bytes, new Demuxer after other instances have worked vs before: %s", len(p), d), data)
+			break
+		}
+	}
+	c.Case(mon.HashBytes("overlap", a[:188]), true)
+}
+
+func firstDifference(a, b []string) string {
+	if len(a) != len(b) {
+		return fmt.Sprintf("%d results vs %d", len(a), len(b))
+	}
+	for k := range a {
+		if a[k] != b[k] {
+			x, y := a[k], b[k]
+			if len(x) > 300 {
+				x = x[:300]
+			}
+			if len(y) > 300 {
+				y = y[:300]
+			}
+			return fmt.Sprintf("result %d differs: %s | %s", k, x, y)
+		}
+	}
+	return ""
+}
+
+// muxLockstepCase: 2..4 Muxers alive at once, their histories executed in turns (one operation each, round-robin with random
+// strides): every Muxer must write exactly the bytes it writes when it is the only one.
+func muxLockstepCase(c *mon.Ctx, idx int64, r *rand.Rand) {
+	n := 2 + r.IntN(3)
+	type mx struct {
+		ops    []HOp
+		period int
+		solo   []byte
+		st     *histStepper
+	}
+	ms := make([]*mx, n)
+	for k := range ms {
+		ops, period := RandomHistory(r, HistOpts{MaxOps: 25, AutoPIDs: true, FewPIDs: true, AllowInvalid: k%2 == 0, ReuseAF: true})
+		ms[k] = &mx{ops: ops, period: period}
+		ms[k].solo = runHistory(mon.Clone(ops), period).Out
+		ms[k].st = newHistStepper(mon.Clone(ops), period)
+	}
+	left := n
+	for left > 0 {
+		left = 0
+		for _, m := range ms {
+			for q := 0; q < 1+r.IntN(3); q++ {
+				m.st.Step()
+			}
+			if !m.st.Done() {
+				left++
+			}
+		}
+	}
+	c.Count("muxers_in_lockstep")
+	for k, m := range ms {
+		got := m.st.Run().Out
+		if !bytes.Equal(got, m.solo) {
+			c.Violate("C16/lockstep/muxer-disturbed-by-another", "mux-lockstep", idx, fmt.Sprintf("muxer %d of %d: output differs from its solo run at byte %d (%d vs %d bytes)", k, n, firstDiff(got, m.solo), len(got), len(m.solo)), map[string]any{"history": histSample(m.st.Run())})
+			break
+		}
+	}
+	c.Case(mon.HashStr("mux-lockstep", fmt.Sprint(idx)), true)
 }
 
 func aliasCase(c *mon.Ctx, idx int64, r *rand.Rand, s1, s2 *gen.Stream, api string) {
@@ -302,7 +489,48 @@ func muxAliasCase(c *mon.Ctx, idx int64, r *rand.Rand) {
 
 // ---- concurrency, executed by the -race binary ----
 
+// yieldReader delivers at most chunk bytes per Read and calls mark (a scheduling point) first. With seek it also offers Seek.
+type yieldReader struct {
+	data  []byte
+	pos   int
+	chunk int
+	mark  func()
+}
+
+func (y *yieldReader) Read(p []byte) (int, error) {
+	if y.mark != nil {
+		y.mark()
+	}
+	if y.pos >= len(y.data) {
+		return 0, io.EOF
+	}
+	n := len(p)
+	if n > y.chunk {
+		n = y.chunk
+	}
+	if n > len(y.data)-y.pos {
+		n = len(y.data) - y.pos
+	}
+	copy(p, y.data[y.pos:y.pos+n])
+	y.pos += n
+	return n, nil
+}
+
+// plainYield hides Seek.
+type plainYield struct{ y *yieldReader }
+
+func (p plainYield) Read(b []byte) (int, error) { return p.y.Read(b) }
+
+func (y *yieldReader) Seek(off int64, whence int) (int64, error) {
+	if whence != io.SeekStart || off < 0 {
+		return 0, fmt.Errorf("unsupported seek")
+	}
+	y.pos = int(off)
+	return off, nil
+}
+
 type instance struct {
+	auto  bool
 	kind  string // demux-data, demux-packet, mux
 	in    []byte
 	seed  uint64
@@ -324,7 +552,19 @@ func runInstance(in *instance, stamp *int64, stamps *[]int64, yield bool) []stri
 	}
 	switch in.kind {
 	case "demux-data", "demux-packet":
-		dmx := astits.NewDemuxer(context.Background(), bytes.NewReader(in.in), astits.DemuxerOptPacketSize(188))
+		var dmx *astits.Demuxer
+		if in.auto {
+			// packet size auto-detected, through a reader that delivers a few bytes per Read and yields in between: the
+			// detection of one instance overlaps the work of the others
+			yr := &yieldReader{data: in.in, chunk: 1 + int(in.seed%97), mark: mark}
+			if in.seed%2 == 0 {
+				dmx = astits.NewDemuxer(context.Background(), yr)
+			} else {
+				dmx = astits.NewDemuxer(context.Background(), plainYield{yr})
+			}
+		} else {
+			dmx = astits.NewDemuxer(context.Background(), bytes.NewReader(in.in), astits.DemuxerOptPacketSize(188))
+		}
 		for k := 0; k < len(in.in)+64; k++ {
 			mark()
 			if in.kind == "demux-data" {
@@ -389,6 +629,11 @@ func runC16Race(c *mon.Ctx) {
 					in.in = m.Build(r).Bytes
 					if r.IntN(2) == 0 {
 						in.in = richStream(r).Bytes
+					}
+					if r.IntN(2) == 0 && len(in.in) >= 376 && in.in[184] != 0x47 && in.in[185] != 0x47 && in.in[186] != 0x47 && in.in[187] != 0x47 {
+						in.auto = true
+						in.seed = r.Uint64()
+						c.Count("concurrent_auto_detecting_instances")
 					}
 				}
 				in.solo = runInstance(in, nil, nil, false)
